@@ -24,7 +24,7 @@ import tempfile
 import time
 from fractions import Fraction
 
-from common import (COQ, COQ_FLAGS, GEN, NCPU, TRUSTED_BASE, Verdict, cbool, clist, copt, coq_build,
+from common import (COQ, COQ_FLAGS, GEN, NCPU, REPO, TRUSTED_BASE, Verdict, cbool, clist, copt, coq_build,
                     coq_eval_files, cq, cstr, cz, gen_dir, log, parse_pairs, proof_stage, repo_blob_ids, run,
                     write_evidence)
 
@@ -463,6 +463,8 @@ def choose_then(rng, o, target):
     """a then step whose oracle truth is `target` if one can be found."""
     if rng.random() < 0.04:
         return (rng.choice(['entered', 'notentered', 'exited', 'notexited', 'active', 'notactive']), 'nosuch')
+    if rng.random() < 0.03 and o.block is not None:
+        return (rng.choice(['expr', 'notexpr']), 'q9 == %d' % rng.randint(0, 3), True)    # raises NameError
     for _ in range(8):
         kind = rng.choice(KINDS)
         if o.block is None:
@@ -561,7 +563,7 @@ def gen_feature(rng, sc, n_scen):
                           reproducible=all(st == 'Passed' for st, ln in zip(statuses, lines) if ln['ty'] != 'then')
                           and 'reproduce' not in uses or rng.random() < 0.3 and all(
                               st == 'Passed' for st, ln in zip(statuses, lines) if ln['ty'] != 'then'),
-                          interp=o.interp))
+                          interp=o.interp, tables_dropped=o.tables_dropped))
     return scens
 
 
@@ -747,6 +749,14 @@ def testing_queries(rng, sc, block, interp):
 # ------------------------------------------------------------------------------------------------
 # one chart = one feature file = one behave run   (executed in a worker process)
 # ------------------------------------------------------------------------------------------------
+def chart_task_safe(args):
+    try:
+        return chart_task(args)
+    except BaseException:   # noqa
+        import traceback
+        return dict(seed=args[0], error='worker failed', detail=traceback.format_exc()[-2000:])
+
+
 def chart_task(args):
     seed, n_scen, record = args
     sys.path.insert(0, os.path.dirname(os.path.abspath(__file__)))
@@ -808,6 +818,7 @@ def chart_task(args):
             oracle_status=s['oracle_status'], behave=res.get(s['name']), script=script, thens=thens,
             ops=[(o[0],) + tuple(o[1:]) for o in s['ops']],
             rec_ops=None if rl is None else [(x[0],) if x[0] == 'execute' else x for x in rl],
+            tables_dropped=s['tables_dropped'],
             impl_macros_ok=impl_macros_ok))
         # sismic.testing on the last block of this scenario
         blk = next((td['block'] for td in reversed(s['thens']) if td is not None), None)
@@ -871,7 +882,7 @@ def c_case(feat_name, states_name, s):
                 '(mkTD %s %s)' % (clist(td['block'], c_macro), copt(td['fact'], cbool)))
     script = clist(s['script'], lambda e: '(%s, %s)' % (copt(e[0], lambda ms: clist(ms, c_macro)), c_snap(e[1])))
     beh = clist([('Error' if b == 'Undefined' else b) for b in s['behave']])
-    ops = copt(s['rec_ops'], lambda l: clist(l, c_op))
+    ops = copt(s['rec_ops'] if s['rec_ops'] is not None else s['ops'], lambda l: clist(l, c_op))
     return '(mkCase %s %s %s\n   %s\n   %s\n   %s\n   %s)' % (states_name, feat_name, cs(s['name']), script, tds, beh, ops)
 
 
@@ -944,7 +955,7 @@ NUMS = ['0', '1', '2', '10', '007', '+5', '-3', ' 4', '0x10', '0b11', '0o7', '1.
         'nan', 'NAN', 'NaN', 'inf', '-inf', 'INF', 'abc', '1 2', '--1', '+-1', '1.5.2', '']
 
 
-def matcher_task(seed):
+def matcher_task(arg):
     """(type, text) -> what behave selects.  Runs in a worker (imports behave's global registry)."""
     import behave.step_registry as sr
     from behave.model import Step
@@ -956,6 +967,7 @@ def matcher_task(seed):
         ci = not getattr(ParseMatcher, 'CASE_SENSITIVE', False)
     except Exception:   # noqa
         ci = True
+    seed, reps = arg
     rng = random.Random(seed)
     texts = []
 
@@ -968,9 +980,9 @@ def matcher_task(seed):
             return rng.choice(ARGS_PLAIN if plain else ARGS_PLAIN + ARGS_TRICKY)
         return re.sub(r'\{([^}]*)\}', rep, pat)
     for ty, pat, fn in defs:
-        for _ in range(6):
+        for _ in range(6 * reps):
             texts.append((ty, inst(pat, True)))
-        for _ in range(14):
+        for _ in range(14 * reps):
             texts.append((ty, inst(pat, False)))
         t = inst(pat, True)
         texts.append((ty, t.upper()))
@@ -1134,10 +1146,39 @@ def corpus_task(item):
     return fn, bad, n
 
 
+def cli_task(corpus):
+    """the sismic-bdd command line (python -m sismic.bdd) on the corpus seeds: same statuses as expected."""
+    bad, n = [], 0
+    for fn, seed in corpus:
+        d = tmpdir()
+        yp, fp, op = os.path.join(d, 'c.yaml'), os.path.join(d, 'f.feature'), os.path.join(d, 'o.json')
+        open(yp, 'w').write(seed['chart_yaml'])
+        open(fp, 'w').write(seed['feature_text'])
+        env = dict(os.environ, PYTHONPATH=REPO)
+        try:
+            subprocess.run([sys.executable, '-m', 'sismic.bdd', yp, '--features', fp, '-f', 'json', '-o', op,
+                            '--no-summary', '-q'], env=env, stdout=subprocess.DEVNULL, stderr=subprocess.DEVNULL,
+                           timeout=120, cwd=d)
+            data = json.load(open(op))
+        except Exception as e:   # noqa
+            bad.append(dict(file=fn, scenario=None, why='sismic-bdd did not produce output: %r' % e))
+            continue
+        got = {}
+        for feat in data:
+            for el in feat.get('elements', []):
+                got[el['name']] = [STATUS.get(st.get('result', {}).get('status'), 'Error') for st in el['steps']]
+        for name, exp in seed['expected'].items():
+            n += 1
+            if got.get(name) != exp:
+                bad.append(dict(file=fn, scenario=name, expected=exp, got=got.get(name)))
+        shutil.rmtree(d, ignore_errors=True)
+    return bad, n
+
+
 def main(tier, seed):
     t0 = time.time()
     v = Verdict(PROP)
-    sys.path.insert(0, '/repo')
+    sys.path.insert(0, REPO)
     dev = os.environ.get('C19_DEV') == '1'
     # ---- proof obligations
     if not dev:
@@ -1158,18 +1199,31 @@ def main(tier, seed):
     with open(os.path.join(d, 'Dispatch.v'), 'w') as f:
         f.write(DISPATCH_V)
     # ---- generation + behave runs (parallel)
-    n_charts = 40 if tier == 'quick' else 400
+    n_charts = 96 if tier == 'quick' else 960
     n_scen = 12
     tasks = [(seed * 100003 + i, n_scen, (i % 4) != 3) for i in range(n_charts)]
     t1 = time.time()
     corpus = load_corpus()
     from concurrent.futures import ProcessPoolExecutor
     with ProcessPoolExecutor(max_workers=NCPU) as ex:
-        fm = ex.submit(matcher_task, seed)
+        fm = ex.submit(matcher_task, (seed, 1 if tier == 'quick' else 6))
+        fcli = ex.submit(cli_task, corpus)
         fc = [ex.submit(corpus_task, c) for c in corpus]
-        results = list(ex.map(chart_task, tasks, chunksize=1))
-        mres = fm.result()
-        cres = [f.result() for f in fc]
+        results = list(ex.map(chart_task_safe, tasks, chunksize=1))
+        try:
+            mres = fm.result()
+        except BaseException as e:   # noqa  e.g. behave refuses the step definitions (AmbiguousStep)
+            mres = dict(ci=False, cases=[], n_defs=0, notes=[], error=repr(e))
+        try:
+            cli_bad, n_cli = fcli.result()
+        except BaseException as e:   # noqa
+            cli_bad, n_cli = [dict(file=None, scenario=None, why=repr(e))], 0
+        cres = []
+        for f, c in zip(fc, corpus):
+            try:
+                cres.append(f.result())
+            except BaseException as e:   # noqa
+                cres.append((c[0], [dict(scenario=None, why='corpus seed did not run: %r' % e)], 0))
     t_behave = time.time() - t1
     charts = [(i, r) for i, r in enumerate(results) if r.get('scens')]
     # ---- Coq evaluation
@@ -1229,7 +1283,7 @@ def main(tier, seed):
     usage = dict(repeat=0, reproduce=0, table=0, inline_param=0, unknown_state=0, hook_error_no_when=0,
                  given_between_whens=0, stale_block=0, stale_block_strict_reading_differs=0,
                  given_between_strict_reading_differs=0, exec_raised=0, intermediate_then=0, skipped_after_failure=0,
-                 unquoted_expression=0, failing_action=0)
+                 unquoted_expression=0, failing_action=0, reproduce_dropped_a_table=0, raising_expression=0)
     impl_traces = 0
     samples = []
     for ci_, ch in charts:
@@ -1239,6 +1293,7 @@ def main(tier, seed):
                 n_viol += 1
                 continue
             n_cases += 1
+            usage['reproduce_dropped_a_table'] += s.get('tables_dropped', 0)
             if s['impl_macros_ok']:
                 impl_traces += 1
             elif s['impl_macros_ok'] is False and (ci_, si) not in [(a, b) for a, b, _ in model_mism]:
@@ -1285,6 +1340,8 @@ def main(tier, seed):
                     key = 'true' if td['fact'] is True else ('false' if td['fact'] is False else 'error')
                     if td['fact'] is None and len(sem) > 1 and sem[1] == 'nosuch':
                         usage['unknown_state'] += 1
+                    if td['fact'] is None and kind in ('expr', 'notexpr'):
+                        usage['raising_expression'] += 1
                     dist.setdefault(kind, dict(true=0, false=0, error=0))[key] += 1
                     if td['given_between']:
                         usage['given_between_whens'] += 1
@@ -1338,6 +1395,11 @@ def main(tier, seed):
                          broken='the model matcher over the extracted patterns selects something else than behave'),
                     tag='x%d' % n_viol, no_input=True)
         n_viol += 1
+    if mres.get('error'):
+        v.violation(dict(property=PROP, kind='steps-import', broken='the predefined steps cannot be registered with behave',
+                         error=mres['error'], how_to_replay="PYTHONPATH=%s /venv/bin/python -c 'import sismic.bdd.steps'" % REPO),
+                    tag='import')
+        n_viol += 1
     # ---- corpus
     n_corpus = 0
     for fn, bad, n in cres:
@@ -1347,6 +1409,10 @@ def main(tier, seed):
                              how_to_replay='cd /verif && ./check C19 --replay %s' % os.path.join(CORPUS, fn)),
                         tag='c_%s_%s' % (fn[:-5], b['scenario']))
             n_viol += 1
+    for b in cli_bad:
+        v.violation(dict(property=PROP, kind='cli', broken_or_failing='python -m sismic.bdd on a corpus seed', **b),
+                    tag='cli_%s' % (b.get('scenario') or 'run'))
+        n_viol += 1
     # ---- dispatch obligations
     dispatch_ok = False
     rc, out = by_file.get(dfile, (1, 'not evaluated' if gen_ok else 'GeneratedSteps.v does not compile'))
@@ -1394,7 +1460,7 @@ def main(tier, seed):
             'Print Assumptions: ' + ('Closed under the global context x%d' % info.get('closed', 0)
                                      if not info.get('axioms') else '; '.join(info['axioms']))],
         theorems=info.get('theorems', []),
-        evaluations=n_cases + n_t + len(mcases) + n_corpus, distinct_nontrivial=len(nontrivial),
+        evaluations=n_cases + n_t + len(mcases) + n_corpus + n_cli, cli_scenarios=n_cli, distinct_nontrivial=len(nontrivial),
         rule='one evaluation = one scenario run through execute_bdd and compared step by step (oracle, Coq model, fact_b), or one '
              'sismic.testing call, or one matcher query, or one corpus scenario; non-trivial = scenario whose then step was '
              'executed on a non-empty block of macro steps; distinct = distinct (chart, scenario text)',
@@ -1407,6 +1473,13 @@ def main(tier, seed):
         exact_status_differences_informational=fine_only, corpus_scenarios=n_corpus,
         timing=dict(behave_s=round(t_behave, 1), coq_eval_s=round(t_coq, 1)),
         samples=samples,
+        corners_where_code_and_a_naive_reading_differ=[
+            'block = all when steps since the then step preceding the most recent when step: a given step between two when '
+            'steps does not end it (corpus/C19/given_between_whens.json), and `then; given; then` still sees the old block '
+            '(corpus/C19/stale_block.json); counted above as given_between_whens / stale_block, with the number of generated '
+            'assertions whose verdict would differ under the stricter reading',
+            'reproduce re-issues step names only: Gherkin tables of reproduced steps are dropped (corpus/C19/reproduce_drops_table.json)',
+            'every repeat/reproduce step performs one more execute() of its own after its nested steps (no observable effect on a quiescent interpreter)'],
         source_blobs=repo_blob_ids(['sismic/bdd/steps.py', 'sismic/bdd/environment.py', 'sismic/bdd/wrappers.py', 'sismic/testing.py']),
         proof_info={k: info.get(k) for k in ('build_ok', 'closed', 'axioms', 'forbidden_tokens', 'own_files')},
     )
@@ -1432,7 +1505,7 @@ def _behave_version():
 # replay
 # ------------------------------------------------------------------------------------------------
 def replay(path):
-    sys.path.insert(0, '/repo')
+    sys.path.insert(0, REPO)
     v = Verdict(PROP)
     obj = json.load(open(path))
     from sismic.io import import_from_yaml
